@@ -135,6 +135,25 @@ var builderSpecs = []builderSpec{
 
 func runC11(r *Run) {
 	const P = "C11"
+	// a request built exactly at a protocol limit must be accepted: the intake limits are inclusive
+	// bounds on their own quantities (shared with C10)
+	{
+		sinks, _ := r.protocolSinks()
+		intakeFns := map[*ssa.Function]bool{}
+		var es []*ssa.Function
+		for _, f := range r.parserEntries(P) {
+			if f != nil {
+				es = append(es, f)
+			}
+		}
+		for _, f := range r.P.Reachable(es...) {
+			intakeFns[f] = true
+		}
+		r.checkLimitRoles(P, sinks, intakeFns)
+	}
+	// "produces precisely the intended state change": every field of the state an applier returns
+	// comes from its prescribed source (provenance cells, shared with C03)
+	r.checkProvenance(P, nil)
 	// consumer functions: parser + applier packages
 	consumers := r.P.SubjectFuncs(pkgParser, pkgApplier)
 	cells := 0
